@@ -641,7 +641,7 @@ pub mod operator {
             Ok(null_vec_like(
                 filter.any(),
                 output.any(),
-                LengthSource::NonZeroU8ElementCount,
+                LengthSource::NonNullElementCount,
             ))
         } else if input.is_nullable() {
             reify_types! {
